@@ -139,29 +139,39 @@ class Fast:
             body_then = list(st.body) + ([] if always_returns(st.body) else rest)
             sh2 = dict(shapes)
             lean_pats = {}
+            static_false = False
+            SAT = {"vs": {"VectorSum", "vectorIsVar"}, "lc": {"LinearCombination", "vectorIsVar"}, "const": {"Constant"},
+                   "bin": {"BinaryOp"}}
             for x, ks in pats.items():
                 if x in shapes:
-                    self.fail(st, f"{x} is tested again")
+                    # the operand's class is already known on this path: the test is decided statically
+                    if not set(ks) <= SAT[shapes[x][0]]:
+                        static_false = True
+                    continue
                 lean_pats[x], sh2[x] = self.pattern(x, ks, shapes)
+            if static_false:
+                if not rest:
+                    raise TranslateError(f"{self.where}: an `if` without else is the last statement")
+                return self.block(rest, shapes, ind)
             cont = self.block(rest, shapes, ind + "    ") if rest else None
             if cont is None:
                 raise TranslateError(f"{self.where}: an `if` without else is the last statement")
             then = self.block(body_then, sh2, ind + "    ")
-            guarded = f"if {' && '.join(bools)} then{nl}    {then}{nl}  else{nl}    {cont}" if bools else then
+            guarded = f"(if {' && '.join(bools)} then{nl}    {then}{nl}  else{nl}    {cont})" if bools else then
             if not lean_pats:
                 return guarded.replace(nl + "  else", nl + "else").replace(nl + "    ", nl + "  ") if False else guarded
             subs = list(lean_pats)
             scrut = ", ".join(SUBJ[x] for x in subs)
             pat = ", ".join(lean_pats[x] for x in subs)
             wild = ", ".join("_" for _ in subs)
-            return f"match {scrut} with{nl}| {pat} =>{nl}  {guarded}{nl}| {wild} =>{nl}    {cont}"
+            return f"(match {scrut} with{nl}| {pat} =>{nl}  {guarded}{nl}| {wild} =>{nl}    {cont})"
         # result = _try_extract_fast_binop(expr, var_index, n); if result is not None: return result
         if isinstance(st, ast.Assign) and _u(st.value) == "_try_extract_fast_binop(expr, var_index, n)" and rest \
                 and isinstance(rest[0], ast.If) and _u(rest[0].test) == f"{_u(st.targets[0])} is not None" \
                 and [_u(x) for x in _strip(rest[0].body)] == [f"return {_u(st.targets[0])}"] and not rest[0].orelse \
                 and shapes.get("expr", ("",))[0] == "bin":
             cont = self.block(rest[1:], shapes, ind + "    ")
-            return (f"do{nl}  let f ← fastBinopG V op l r{nl}  match f with{nl}  | some res => pure res{nl}  | none =>{nl}    {cont}")
+            return (f"(do{nl}  let f ← fastBinopG V op l r{nl}  match f with{nl}  | some res => pure res{nl}  | none =>{nl}    {cont})")
         # the general path
         texts = [_u(s) for s in stmts]
         if texts == ["result = np.zeros(n, dtype=np.float64)", "_extract_all_coefficients_impl(expr, var_index, result, 1.0)",
